@@ -50,7 +50,7 @@ ASSUMPTIONS = [
     "top-level call value is not transferred in the replay of the main families (halmos does not move balance for top-level invariant calls; their targets never read balances); the separate `balance` family reads balances, transfers value on the reference side and is a recorded known finding",
     "filter precedence as documented by Foundry and restated in the comments of run_target_contract / resolve_target_*: effective senders = targeted - excluded, else all but excluded; contracts = (targeted or all deployed) - excluded + keys of targetSelectors, the test contract only if targeted explicitly; selectors = targeted, else all but excluded, else all non-view",
 ]
-WATCHDOG_S = {"quick": 900, "thorough": 7200}
+WATCHDOG_S = {"quick": 2400, "thorough": 10800}
 
 MANIFEST = {
     "technique": "model-based testing of call histories: generated stateful target contracts and filter configurations, brute force of all call sequences up to the depth on a reference EVM as ground truth, replay of every reported call sequence, and metamorphic runs with state merging disabled / function order permuted",
